@@ -1,9 +1,12 @@
 """C12 — every connection: one connect, ordered reads, one disconnect, then no trace (server), one disconnected per connected (client).
 
 Engine: SimNet.  A run draws ONE history (the tape prefix): 1-5 simulated peers against one TCPServer/UNIXServer, peer actions (connect,
-send n bytes in pieces, half-close, orderly close, abort = close with unread data, stop/resume reading) interleaved with server-side
+send n bytes in pieces, half-close, orderly close, abort = close with unread data, connect-and-reset before the server's next step,
+stop/resume reading) interleaved with server-side
 `write(sock, data)`, `close(sock)` - also LATE ones, addressed to a socket whose `disconnect` was already observed - and the fault set
-(short reads, spurious EAGAIN, recv reset, short writes, transient / fatal send errors, accept errors, EINTR in the poller).  The SAME history
+(short reads, spurious EAGAIN, recv reset, short writes, transient / fatal send errors, accept errors, EINTR in the poller, and
+`peer_gone_before_accept`: a TCP connection that the peer reset while it was still in the accept queue is returned by accept() all the same, but
+getpeername() on it fails with ENOTCONN - AF_UNIX never does that, so the policy's on_getpeername hook does it).  The SAME history
 is then executed under Select, Poll and EPoll (fresh manager, fresh sockets, fault placement drawn per call from the rest of the tape).
 A quarter of the runs do the mirror image: one TCPClient component against a simulated listener.
 
@@ -11,7 +14,9 @@ Oracle (each clause quotes the statement):
   * "exactly one connect, then ... read events ..., then exactly one disconnect, and nothing for that socket afterwards": an automaton per
     socket object, driven online by an observer component on the server's channel (C12/stream/...); an `error(sock, ...)` event dispatched
     after the socket's disconnect is "something afterwards" too (C12/after-disconnect/error-event/<poller>) - error events BEFORE the
-    disconnect are not judged;
+    disconnect are not judged.  A connection that was reset before the server accepted it (getpeername() failed) may stay unannounced
+    altogether or go through connect ... disconnect like any other; a disconnect (or read) for a socket that never had its connect is a
+    violation (C12/stream/disconnect-without-connect/reset-before-accept);
   * "the received bytes as read events in order without loss or duplication": the interposer records what recv() returned for the socket
     (ground truth of "received"); the concatenated read payloads must be a prefix of it at all times and equal to it at every quiescent
     point and at the disconnect (C12/reads/...).  When the peer ended the connection in an orderly way (everything sent, then FIN / close
@@ -54,7 +59,7 @@ LEVEL_TEXT = ('seeded enumeration of connection histories x network faults on th
               'recv() returned, residue walk over server and poller at every quiescent point, cross-poller comparison; sampling, not proof')
 LEVEL_NOTE = ('trusted: the socket interposer (addresses, fault injection, record of recv results), the kernel\'s AF_UNIX semantics as stand-in for TCP '
               '(reset = close with unread data), quiescence = 5 loop iterations without observable progress with faults off; `error` events are judged only after a disconnect')
-RULE = ('each run = one history (connections, peer actions, server writes/closes incl. late ones, fault kinds+rate, bufsize, SO_SNDBUF) drawn from the tape and '
+RULE = ('each run = one history (connections, peer actions incl. connect-and-reset before accept, server writes/closes incl. late ones, fault kinds+rate, bufsize, SO_SNDBUF) drawn from the tape and '
         'executed under each poller; non-trivial = under every executed poller at least one connection went through connect, >= 1 read and disconnect AND the '
         'history contains a server-side write/close, an abort, a half-close, a stalled peer or a fired fault; distinct = digest of the full observer/action log')
 STATE_MEASURE = '(poller, how the connection ended, close requested with data pending, late op kind, bytes-read bucket) per connection; (poller, client end shape) in client mode'
@@ -69,8 +74,14 @@ ASSUMPTIONS = ['`error` events are judged in one respect only: none may name a s
                'server data for it was still unsent (the failing send legitimately ends the connection before the last bytes are read)',
                'pollers are compared only on histories where every action ran to quiescence and no fault fired in any of the three executions (otherwise timing and the '
                'independently drawn faults legitimately change what is read / when a close deferred by unsent data completes)',
-               'client clause: only the pairing of connected/disconnected is judged']
+               'client clause: only the pairing of connected/disconnected is judged',
+               'a connection the peer reset before the server accepted it (accept() returns the socket, getpeername() fails with ENOTCONN; TCP only, never for '
+               'UNIXServer): the statement says "every connection a server accepts" gets one connect and one disconnect; the weaker reading is taken - such a '
+               'connection may also stay completely unannounced (no connect, no read, no disconnect; C12/connect/missing is not raised for it) - but a disconnect or '
+               'read for a socket that was never announced by connect is a violation; `error` events for it are not judged (statement silent); whether the '
+               'failure applies to a reset-before-accept connection is drawn from the tape (fault kind peer_gone_before_accept, 1 in 2 when the kind is on)']
 PROBES = ['late-write', 'late-close', 'client-close-while-writing-peer-gone', 'answer-close-while-peer-talks', 'write-then-peer-gone', 'readable-and-writable-round-ends-connection', 'abort', 'half-close', 'stalled-send-buffer-full', 'close-deferred-by-buffer', 'peer-close-while-writing', 'unix-server',
+          'reset-before-accept', 'reset-before-accept-unannounced', 'fault:peer_gone_before_accept',
           'client-mode', 'client-reconnect', 'pollers-compared', 'echo-write', 'multi-conn', 'unsettled-action', 'cfg:Select', 'cfg:Poll', 'cfg:EPoll',
           'fault:short_read', 'fault:spurious_eagain_read', 'fault:recv_reset', 'fault:short_write', 'fault:transient_send_error', 'fault:fatal_send_error',
           'fault:accept_error', 'fault:poll_eintr', 'fault:connect_delay']
@@ -80,7 +91,9 @@ TIERS = {
 }
 
 POLLERS = [Select, Poll, EPoll]
-FAULTS = ['short_read', 'spurious_eagain_read', 'recv_reset', 'short_write', 'transient_send_error', 'fatal_send_error', 'accept_error', 'poll_eintr']
+FAULTS = ['short_read', 'spurious_eagain_read', 'recv_reset', 'short_write', 'transient_send_error', 'fatal_send_error', 'accept_error', 'poll_eintr',
+          'peer_gone_before_accept']
+RESET_BEFORE_ACCEPT = 'C12/stream/disconnect-without-connect/reset-before-accept'
 SIZES = [1, 2, 5, 64, 300, 300, 3000]
 CONTAINERS = (list, tuple, set, frozenset, deque)
 ADDR = ('10.0.0.1', 80)
@@ -99,6 +112,9 @@ class Policy(TapePolicy):
         super().__init__(ctx, kinds, rate)
         self.fatal = set()
         self.polls = 0
+        self.reset_before_accept = None    # callable(sock) -> did the peer of this accepted socket reset the connection already? (set by run_server)
+        self.unannounced = set()           # sim_ids of accepted sockets whose getpeername() failed
+        self.named = set()
 
     def on_recv(self, sock, n):
         act = super().on_recv(sock, n)
@@ -117,6 +133,22 @@ class Policy(TapePolicy):
         # descriptors (_preenDescriptors) come later in the same iteration, never sleep and so never see EINTR
         self.polls += 1
         return self.polls == 1 and super().on_poll(kind)
+
+    def on_getpeername(self, sock):
+        # TCP: a connection the peer reset while it was waiting in the accept queue is still returned by accept(), but has no peer any more:
+        # getpeername() fails with ENOTCONN.  AF_UNIX sockets never do that, so it is injected here (decided once per socket).
+        sid = sock.sim_id
+        if sid in self.unannounced:
+            return True
+        if (sid in self.named or not self.enabled or 'peer_gone_before_accept' not in self.kinds or self.reset_before_accept is None
+                or not self.reset_before_accept(sock)):
+            return False
+        if self.ctx.ch.chance(1, 2, 'fault?peer_gone_before_accept'):
+            self.ctx.stat('fault:peer_gone_before_accept')
+            self.unannounced.add(sid)
+            return True
+        self.named.add(sid)
+        return False
 
     def on_connect(self, sock, addr):
         # a non-blocking TCP connect() always answers EINPROGRESS first; AF_UNIX would answer 0, which TCPClient's reconnect path
@@ -268,8 +300,9 @@ def gen_server_plan(ch, cfg):
     plan['conns'] = [dict(echo=ch.chance(1, 4, 'echo'), reading=not ch.chance(1, 4, 'stalled')) for _ in range(nconn)]
     acts = []
     for _ in range(ch.randint(2, cfg['max_actions'], 'nactions')):
-        k = ch.weighted([6, 4, 2, 3, 1, 2, 2, 1, 2, 1], 'action')
-        kind = ['send', 'srv_write', 'srv_close', 'peer_close', 'abort', 'half_close', 'toggle_read', 'srv_big', 'answer_close_talk', 'write_peer_gone'][k]
+        k = ch.weighted([6, 4, 2, 3, 1, 2, 2, 1, 2, 1, 2], 'action')
+        kind = ['send', 'srv_write', 'srv_close', 'peer_close', 'abort', 'half_close', 'toggle_read', 'srv_big', 'answer_close_talk', 'write_peer_gone',
+                'connect_reset'][k]        # connect_reset: the peer connects and resets (SO_LINGER 0, close) before the server's next step
         i = ch.draw(nconn, 'conn')
         arg = None
         if kind == 'send':
@@ -294,7 +327,8 @@ def gen_server_plan(ch, cfg):
 
 
 def run_server(ctx, plan, P, skip_late):
-    kinds = [k for k in plan['kinds'] if not (k == 'fatal_send_error' and 'send-fails' in skip_late) and not (k == 'recv_reset' and 'recv-fails-deferred' in skip_late)]
+    kinds = [k for k in plan['kinds'] if not (k == 'fatal_send_error' and 'send-fails' in skip_late) and not (k == 'recv_reset' and 'recv-fails-deferred' in skip_late)
+             and not (k == 'peer_gone_before_accept' and ('reset-before-accept' in skip_late or plan['unix']))]      # (getpeername() of an AF_UNIX socket never fails)
     S = Sub(ctx, P, kinds, plan['rate'])
     m, poller, tr, fail = S.m, S.poller, S.tr, S.fail
     if plan['unix']:
@@ -314,6 +348,15 @@ def run_server(ctx, plan, P, skip_late):
     def on_recv(sock, data):
         recvd.setdefault(sock.sim_id, bytearray()).extend(data)
     S.on_recv = on_recv
+
+    def reset_before_accept(sock):
+        # asked by the policy when the server looks at a freshly accepted socket: has its peer (matched by simulated address) reset the connection already?
+        c = by_local.get(sock.sim_peer) if isinstance(sock.sim_peer, tuple) else None
+        if c is None or c['pstate'] != 'closed' or c['end'] != 'aborted' or c['rec'] is not None:
+            return False
+        c['srv_sid'] = sock.sim_id
+        return True
+    S.pol.reset_before_accept = reset_before_accept
 
     # reach probe only: which sockets did one poll round report readable AND writable (instance attribute `fire` of the poller, nothing is judged here)
     seen_rw, both_rw = {}, {}
@@ -386,7 +429,8 @@ def run_server(ctx, plan, P, skip_late):
             S.nev += 1
             tr('    observer: read #%d %d bytes', sid, len(data))
             if rec is None:
-                fail('C12/stream/read-without-connect', 'read event for socket #%d that was never announced by connect' % sid)
+                fail('C12/stream/read-without-connect' + ('/reset-before-accept' if sid in S.pol.unannounced else ''),
+                     'read event for socket #%d that was never announced by connect' % sid)
             if rec['ndisc']:
                 fail('C12/stream/read-after-disconnect', 'read event (%d bytes) for socket #%d after its disconnect' % (len(data), sid))
             rec['reads'] += data
@@ -409,6 +453,10 @@ def run_server(ctx, plan, P, skip_late):
             S.nev += 1
             tr('    observer: disconnect #%d', sid)
             if rec is None:
+                if sid in S.pol.unannounced:
+                    # "exactly one connect, then ..., then exactly one disconnect ... whatever the peer does (... abort ...)"
+                    fail(RESET_BEFORE_ACCEPT, 'disconnect event for socket #%d, which was never announced by connect: the peer had reset the connection before the '
+                         'server accepted it, getpeername() failed with ENOTCONN and no connect event was fired' % sid)
                 fail('C12/stream/disconnect-without-connect', 'disconnect event for socket #%d that was never announced by connect' % sid)
             if rec['ndisc']:
                 fail('C12/stream/disconnect-twice', 'second disconnect event for socket #%d' % sid)
@@ -561,6 +609,14 @@ def run_server(ctx, plan, P, skip_late):
         if c['pstate'] == 'none':
             if st['listening']:
                 open_conn(c)
+                if kind == 'connect_reset' and c['pstate'] == 'open':
+                    # "reset via SO_LINGER 0": the connection is complete for the kernel (it waits in the accept queue) and destroyed before the server's next step
+                    c['peer'].close()
+                    c['pstate'] = 'closed'
+                    c['end'] = 'aborted'
+                    ctx.stat('abort')
+                    ctx.stat('reset-before-accept')
+                    tr('conn%d: peer RESETS the connection at once (SO_LINGER 0, close), before the server has accepted it' % i)
         elif kind == 'send':
             if c['pstate'] == 'open':
                 n, cuts, between = arg
@@ -599,7 +655,7 @@ def run_server(ctx, plan, P, skip_late):
         elif kind == 'peer_close':
             if c['pstate'] in ('open', 'half'):
                 end_peer(c, True)
-        elif kind == 'abort':
+        elif kind in ('abort', 'connect_reset'):      # (connect_reset on an established connection = plain abort)
             if c['pstate'] in ('open', 'half'):
                 end_peer(c, False)
         elif kind == 'half_close':
@@ -637,6 +693,13 @@ def run_server(ctx, plan, P, skip_late):
         S.quiesce(pump)
         checks(-2)
         for c in conns:
+            if c.get('srv_sid') in S.pol.unannounced:
+                # reset before accept and getpeername() failed: the connection may stay unannounced altogether (weaker reading, see ASSUMPTIONS);
+                # a disconnect / read without connect was judged online by the observer
+                ctx.stat('reset-before-accept-unannounced')
+                ctx.state((S.name, 'reset-before-accept', c['rec'] is not None))
+                if c['rec'] is None:
+                    continue
             if c['pstate'] == 'closed' and c['end'] != 'refused' and c['rec'] is None and not plan['close_all']:
                 fail('C12/connect/missing', 'conn%d: the peer\'s connection was established (and later %s) but no connect event was ever observed' % (c['idx'], c['end']))
         for rec in recs.values():
@@ -896,6 +959,8 @@ def _run(ctx):
                 skip_late.add('recv-fails-deferred')    # trigger: recv error / reset while a close is deferred by unsent data
             elif parts[2] == 'EPoll._map':
                 skip_pollers.add('EPoll')               # trigger: any disconnect under EPoll
+        elif key == RESET_BEFORE_ACCEPT:
+            skip_late.add('reset-before-accept')        # trigger: getpeername() fails on a socket whose peer reset before accept
     results = []
     for pi in plan['order']:
         P = POLLERS[pi]
@@ -922,6 +987,6 @@ def _run(ctx):
             ctx.trace('VIOLATION %s: %s' % ctx.violations[0])
     if not client and len(plan['conns']) > 1:
         ctx.stat('multi-conn')
-    interesting = client or any(a[0] in ('srv_write', 'srv_close', 'abort', 'half_close', 'toggle_read', 'srv_big') for a in plan['acts']) or \
+    interesting = client or any(a[0] in ('srv_write', 'srv_close', 'abort', 'half_close', 'toggle_read', 'srv_big', 'connect_reset') for a in plan['acts']) or \
         any(k.startswith('fault:') for k in ctx.stats)
     ctx.nontrivial = bool(results) and all(r['full'] > 0 for r in results) and bool(interesting)
